@@ -241,12 +241,18 @@ func (d *Decorated) sortedToks() []string {
 func (d *Decorated) goEpilogue(pkg string, object bool) string {
 	var b strings.Builder
 	b.WriteString("\n// ---- harness-owned epilogue ---- (this comment contains the section mark %% on purpose)\n")
-	b.WriteString("func tokCode(ch byte) int {\n\tswitch ch {\n")
+	b.WriteString("func tokCode(ch byte, p int) int {\n\tswitch ch {\n")
+	var codes []string
 	for _, t := range d.sortedToks() {
 		code := t
+		codes = append(codes, code)
 		fmt.Fprintf(&b, "\tcase %q:\n\t\treturn %s\n", rune(d.Chars[t]), code)
 	}
-	b.WriteString("\t}\n\treturn 0 // not a token: the example lexers of the repository answer 0\n}\n")
+	// not a token: the example lexers of the repository answer 0; which undeclared code the
+	// harness lexer answers depends on the position (0, the two integers after the largest
+	// token code, a negative one other than -1)
+	b.WriteString("\t}\n\tm := 0\n\tfor _, c := range []int{" + strings.Join(codes, ", ") + "} {\n\t\tif c > m {\n\t\t\tm = c\n\t\t}\n\t}\n")
+	b.WriteString("\tswitch p % 4 {\n\tcase 1:\n\t\treturn m + 1\n\tcase 2:\n\t\treturn -7\n\tcase 3:\n\t\treturn m + 2\n\t}\n\treturn 0\n}\n")
 	b.WriteString(`
 func GetToken(input string, valTy *ValType, pos *int) int {
 	rt.Fetch()
@@ -259,7 +265,7 @@ func GetToken(input string, valTy *ValType, pos *int) int {
 	*pos++
 	valTy.n = rt.TokN(ch, p)
 	valTy.s = rt.TokS(ch, p)
-	return tokCode(ch)
+	return tokCode(ch, p)
 }
 func hs(r int, xs ...string) string { return rt.HS(r, xs...) }
 func hn(r int, xs ...int) int       { return rt.HN(r, xs...) }
@@ -347,15 +353,18 @@ const tsPrologue = `"use strict";
 func (d *Decorated) tsEpilogue() string {
 	var b strings.Builder
 	b.WriteString("\n// ---- harness-owned epilogue ---- (this comment contains the section mark %% on purpose)\n")
-	b.WriteString("function tokCode(ch :number) :number {\n\tswitch (ch) {\n")
+	b.WriteString("function tokCode(ch :number, p :number) :number {\n\tswitch (ch) {\n")
+	var codes []string
 	for _, t := range d.sortedToks() {
 		code := t
 		if gram.IsLit(t) {
 			code = fmt.Sprint(int(gram.LitRune(t)))
 		}
+		codes = append(codes, code)
 		fmt.Fprintf(&b, "\tcase %d: return %s;\n", d.Chars[t], code)
 	}
-	b.WriteString("\t}\n\treturn 0; // not a token\n}\n")
+	b.WriteString("\t}\n\tlet m = 0;\n\tfor (const c of [" + strings.Join(codes, ", ") + "]) {\n\t\tif (c > m) { m = c; }\n\t}\n")
+	b.WriteString("\tswitch (p % 4) {\n\tcase 1: return m + 1;\n\tcase 2: return -7;\n\tcase 3: return m + 2;\n\t}\n\treturn 0; // not a token\n}\n")
 	b.WriteString(`
 function GetToken(input :string, model:{ValType :ValType, pos :number}) :number {
 	RT.fetch();
@@ -368,7 +377,7 @@ function GetToken(input :string, model:{ValType :ValType, pos :number}) :number 
 	model.pos++;
 	model.ValType.n = RT.tokN(ch, p);
 	model.ValType.s = RT.tokS(ch, p);
-	return tokCode(ch);
+	return tokCode(ch, p);
 }
 function hs(r :number, ...xs :string[]) :string { return RT.hs(r, xs); }
 function hn(r :number, ...xs :number[]) :number { return RT.hn(r, xs); }
